@@ -209,13 +209,14 @@ def velocity_nested(size):
     n, m = size
 
     def build(ctx):
-        return T.b_notes(velocity=True, tol_kw=('velocity_tolerance',))(ctx, size)
+        # the note-matching tolerances are symbolic too and are given to both variants (offset_ratio 0.25: dyadic)
+        return T.b_notes(velocity=True, offset_ratio=0.25, tol_kw=('velocity_tolerance', 'onset_tolerance', 'pitch_tolerance', 'offset_min_tolerance'))(ctx, size)
 
     def body(A, inp):
         ri, rp, rv = inp['ref']
         ei, ep, ev = inp['est']
         wv = TV.precision_recall_f1_overlap(ri, rp, rv, ei, ep, ev, **inp['kw'])
-        wo = TR.precision_recall_f1_overlap(ri, rp, ei, ep)
+        wo = TR.precision_recall_f1_overlap(ri, rp, ei, ep, **{k: v for k, v in inp['kw'].items() if k != 'velocity_tolerance'})
         for i, nm in enumerate(('P', 'R', 'F')):
             A.observe('with_velocity.' + nm, wv[i])
             A.observe('without.' + nm, wo[i])
